@@ -288,3 +288,40 @@ func VerifC02_CachedExpiry() {
 	rt.Assert(ex == visible, "cachedexpiry/exists-iff-visible")
 	rt.Reach("cachedexpiry-end")
 }
+
+// ---- a storage error during a query (hashmap: the consumer stalls for more
+// than a second with more matches than the stream buffers) is reported once
+// the stream has ended: a truncated result is never taken for a complete one ----
+
+func VerifC02_QueryErrorReported() {
+	rt.SchedYieldOnly(true)
+	c := c02Setup(false)
+	db := NewInterface(&Options{Local: true, Internal: true})
+	total := 10 + rt.Choice("extra", 4) // 10 records fit the stream buffer
+	for i := 0; i < total; i++ {
+		r := &c02Rec{N: int64(i)}
+		r.SetKey("t:q/" + string(rune('a'+i)))
+		r.UpdateMeta()
+		_, _ = c.storage.Put(r)
+	}
+	it, err := db.Query(query.New("t:q/"))
+	rt.Assert(err == nil, "queryerr/query-ok")
+	if err != nil {
+		return
+	}
+	// the consumer stalls
+	stall := rt.Choice("stall", 2)
+	if stall == 1 {
+		time.Sleep(3 * time.Second)
+	}
+	count := 0
+	for range it.Next {
+		count++
+	}
+	rt.Assert(count <= total, "queryerr/no-more-than-stored")
+	rt.Assert(count == total || it.Err() != nil, "queryerr/truncated-stream-reports-an-error")
+	if stall == 0 {
+		rt.Assert(count == total && it.Err() == nil, "queryerr/prompt-consumer-gets-everything")
+	}
+	rt.Reach("queryerr-end")
+}
